@@ -3,29 +3,38 @@
 
    The fragment ([tyof] answers Some): integer and boolean constants,
    filesize, loop / with identifiers, integer and boolean external variables,
-   rule references, not / and / or, defined, unary minus and ~, + - * \ %
+   rule references, not / n-ary and / or, defined, unary minus and ~, + - * \ %
    << >> & | ^, comparisons of integers (and == of booleans), uintN/intN[be],
    $a [at e | in (e..e)], #a [in (e..e)], @a[e], !a[e], `with`,
-   `for <none|any|all|N> x in (lo..hi) : (..)`, and `any|all|N of <set>`
-   without anchor when the compiler uses the range fast path.
-   Outside: strings, `$` / `#` / `@` / `!` placeholders, tuples, for..of,
-   `of` through the generic loop (emit_switch), percentages (f64).
+   `for Q x in (lo..hi)`, `for Q x in (e, ..)`, `for Q of <set>` with the
+   placeholders $ # @ !, `Q of <set>` [at | in] (the three fast paths over
+   runs of consecutive pattern ids, the generic loop otherwise) and
+   `Q of (<boolean>, ..)`, with Q = none | any | all | <expr> | <expr>%.
+   Outside: strings.
+   The emitted WebAssembly of every rule of that fragment is compared with
+   [emit] instruction by instruction (Cond/Wasm.v, Cond/Check.v).  [frag1] is
+   the part EmitProofs.emit_correct is proved for and Check.v also runs on the
+   machine: no emit_switch (generic `of` loop, tuples, for..of) and no
+   percentage (its f64 arithmetic is carried as uninterpreted [IRaw]).
 
    What mirrors emit.rs function by function:
    [throw] / [catch_undef] - throw_undef / catch_undef (the handler's code is
    emitted at the throw site, followed by a br to the handler's block);
-   [emit_filesize]; [emit_not] / [emit_and] / [emit_or] / [emit_defined];
-   [emit_shift] (the < 64 guard); [emit_div] (throw_undef_if_zero, then the
-   divisor == -1 branch) / [emit_mod]; [search_check] before EVERY pattern
+   the cases of [emit]: emit_filesize; emit_not / emit_and / emit_or (over the
+   operands of the n-ary node, constant ones dropped) / emit_defined;
+   [shift_tail] (the < 64 guard); [div_tail] (throw_undef_if_zero, then the
+   divisor == -1 branch) / [mod_tail]; [search_check] before EVERY pattern
    operation (commit e5009a16); [load_var] / [set_var] / [set_var_undef] with
-   the flag word at (index / 64) * 8 (commit 93e33409); [emit_with];
-   [emit_for_range] = emit_for_in_range + emit_for with the four quantifier
-   arms; [emit_of] = the three fast paths of emit_of_pattern_set.
-   Known simplifications (semantically neutral): `a and b and c` is one n-ary
-   node in the implementation and is emitted here as nested binary nodes;
-   the field lookup of an external variable and the byte load of the
-   matching-rules bitmap are single host calls; pattern ids are the indexes
-   of the patterns in the rule. *)
+   the flag word at (index / 64) * 8 (commit 93e33409); emit_with;
+   EForRange = emit_for_in_range + emit_for; [for_gen] / [arm_gen] = emit_for
+   for the other loops; [switch] = emit_switch; [of_runs] / [range_call] = the
+   fast paths of emit_of_pattern_set.
+   More abstract than the emitted code (expanded by Wasm.lower): the field
+   lookup of an external variable and the byte load of the matching-rules
+   bitmap are single host calls.  Pattern references are PatternIds (Check.v
+   renames the rule's pattern indexes with the ids the compiler assigned);
+   the slot of the `for .. of` item lives in the identifier environment under
+   the reserved key [cur_key]. *)
 From Coq Require Import List ZArith Bool Lia.
 From YV Require Import Cond.Syntax Cond.Sem Cond.Quirks Cond.Machine Gen.EmitFacts.
 Import ListNotations.
@@ -130,13 +139,14 @@ Fixpoint tyof (g : cenv) (sp : nat) (e : expr) {struct e} : option ty :=
       end
   (* the other shapes of `of` over a pattern set are emitted as a loop *)
   | EOf QNone _ (_ :: _) ANone _ _ => fits sp OF_FRAME
+  | EOf QPct q (_ :: _) ANone _ _ => match tyof g sp q with Some TInt => fits sp OF_FRAME | _ => None end
   | EOf qk q (_ :: _) AAt a1 _ =>
-      match (match qk with QExpr => tyof g sp q | QPct => None | _ => Some TInt end), tyof g sp a1 with
+      match (match qk with QExpr | QPct => tyof g sp q | _ => Some TInt end), tyof g sp a1 with
       | Some TInt, Some TInt => fits sp OF_FRAME
       | _, _ => None
       end
   | EOf qk q (_ :: _) AIn a1 a2 =>
-      match (match qk with QExpr => tyof g sp q | QPct => None | _ => Some TInt end), tyof g sp a1, tyof g sp a2 with
+      match (match qk with QExpr | QPct => tyof g sp q | _ => Some TInt end), tyof g sp a1, tyof g sp a2 with
       | Some TInt, Some TInt, Some TInt => fits sp OF_FRAME
       | _, _, _ => None
       end
@@ -161,7 +171,7 @@ Fixpoint tyof (g : cenv) (sp : nat) (e : expr) {struct e} : option ty :=
   | EOffset PCur i | ELength PCur i =>
       match clookup cur_key g, tyof g sp i with Some (_, TInt), Some TInt => Some TInt | _, _ => None end
   | EForOf qk q (_ :: _) body =>
-      match (match qk with QExpr => tyof g sp q | QPct => None | _ => Some TInt end) with
+      match (match qk with QExpr | QPct => tyof g sp q | _ => Some TInt end) with
       | Some TInt =>
           match fits sp FOR_OF_FRAME,
                 tyof ((cur_key, ((sp + 4)%nat, TInt)) :: g) (sp + FOR_OF_FRAME)%nat body with
@@ -171,7 +181,7 @@ Fixpoint tyof (g : cenv) (sp : nat) (e : expr) {struct e} : option ty :=
       | _ => None
       end
   | EOfB qk q ((ECons _ _) as items) =>
-      match (match qk with QExpr => tyof g sp q | QPct => None | _ => Some TInt end) with
+      match (match qk with QExpr | QPct => tyof g sp q | _ => Some TInt end) with
       | Some TInt =>
           match fits sp OF_FRAME with
           | Some TBool => if tyof_all g (sp + OF_FRAME)%nat TBool items then Some TBool else None
@@ -180,7 +190,7 @@ Fixpoint tyof (g : cenv) (sp : nat) (e : expr) {struct e} : option ty :=
       | _ => None
       end
   | EForTuple qk q x ((ECons i0 _) as items) body =>
-      match (match qk with QExpr => tyof g sp q | QPct => None | _ => Some TInt end), tyof g sp i0 with
+      match (match qk with QExpr | QPct => tyof g sp q | _ => Some TInt end), tyof g sp i0 with
       | Some TInt, Some t =>
           if tyof_all g sp t items then
             match fits sp FOR_IN_FRAME,
@@ -192,15 +202,11 @@ Fixpoint tyof (g : cenv) (sp : nat) (e : expr) {struct e} : option ty :=
       | _, _ => None
       end
   | EForRange qk q x lo hi body =>
-      match qk with
-      | QPct => None
-      | _ =>
-        match (match qk with QExpr => tyof g sp q | _ => Some TInt end), tyof g sp lo, tyof g sp hi with
-        | Some TInt, Some TInt, Some TInt =>
-            if negb (Nat.leb (sp + FOR_IN_FRAME) (Z.to_nat MAX_VARS)) then None else
-            match tyof ((x, ((sp + 5)%nat, TInt)) :: g) (sp + FOR_IN_FRAME)%nat body with Some TBool => Some TBool | _ => None end
-        | _, _, _ => None
-        end
+      match (match qk with QExpr | QPct => tyof g sp q | _ => Some TInt end), tyof g sp lo, tyof g sp hi with
+      | Some TInt, Some TInt, Some TInt =>
+          if negb (Nat.leb (sp + FOR_IN_FRAME) (Z.to_nat MAX_VARS)) then None else
+          match tyof ((x, ((sp + 5)%nat, TInt)) :: g) (sp + FOR_IN_FRAME)%nat body with Some TBool => Some TBool | _ => None end
+      | _, _, _ => None
       end
   | EWith x d body =>
       (* the frame of the `with` is opened before its declarations are compiled *)
@@ -238,7 +244,7 @@ Fixpoint frag1 (e : expr) : bool :=
   | EOf QExpr q set ANone _ _ => frag1 q && consecutive_ids set
   | EOf QAny _ _ ANone _ _ | EOf QAll _ _ ANone _ _ => true
   | EForRange qk q _ lo hi body =>
-      match qk with QExpr => frag1 q | _ => true end && frag1 lo && frag1 hi && frag1 body
+      match qk with QExpr => frag1 q | QPct => false | _ => true end && frag1 lo && frag1 hi && frag1 body
   | _ => false
   end.
 
@@ -380,6 +386,11 @@ Definition switch (branches : list (list instr)) : list instr :=
 Definition branch_handler (n k : nat) (h : handler) : handler := deepen (n + 1 - k)%nat h.
 
 (* ------------------------------------------------------------------- emit_for *)
+(* max_count of a percentage: ceil (n * q / 100) in f64, saturating back to i64 *)
+Definition pct_code (nslot : nat) (hh : handler) (qc : list instr) : list instr :=
+  load_var nslot TInt hh ++ [IRaw 0xb9 []] ++ qc ++
+  [IRaw 0xb9 []; IRaw 0xa2 []; IRaw 0x44 [4636737291354636288]; IRaw 0xa3 []; IRaw 0x9b []; IRaw 0xfc [6]].
+
 (* incr_i_and_repeat: [after] is the loop's own step (the next item of a range) *)
 Definition repeat_gen (after : list instr) (sp : nat) (hh : handler) (lbl : nat) : list instr :=
   after ++ incr_var (S sp) hh ++ load_var (S sp) TInt hh ++ load_var sp TInt hh ++ [IBin I64LtS; IBrIf lbl].
@@ -407,12 +418,13 @@ Definition for_gen (sp : nat) (h : handler) (qk : qkind) (qcode : handler -> lis
       ++ set_var (S sp) TInt [IConst (V64 0)]
       ++ (match qk with
           | QExpr => set_var (S (S sp)) TInt (qcode (deeper h)) ++ set_var (S (S (S sp))) TInt [IConst (V64 0)]
+          | QPct => set_var (S (S sp)) TInt (pct_code sp (deeper h) (qcode (deeper h))) ++ set_var (S (S (S sp))) TInt [IConst (V64 0)]
           | _ => []
           end)
       ++ [ILoop 1 (before (deeper (deeper h)) ++ catch_undef 1 bodyc [IConst (V32 0)] ++ arm_gen after sp h qk)])].
 (* the i-th pattern id of a set, into the item variable *)
-Definition next_pattern (sp : nat) (ids : list nat) (hh : handler) : list instr :=
-  set_var (sp + 4)%nat TInt (load_var (S sp) TInt hh ++ switch (map (fun id => [IConst (V64 (Z.of_nat id))]) ids)).
+Definition next_pattern (sp item : nat) (ids : list nat) (hh : handler) : list instr :=
+  set_var item TInt (load_var (S sp) TInt hh ++ switch (map (fun id => [IConst (V64 (Z.of_nat id))]) ids)).
 Definition set_count (sp n : nat) : list instr := set_var sp TInt [IConst (V64 (Z.of_nat n))].
 
 Section Emit.
@@ -509,11 +521,12 @@ Section Emit.
         search_check ++ [IConst (V32 (Z.of_nat i))] ++ emit g sp h idx ++ call_handle_undef HLength h
     | EOf qk q set ak a1 a2 =>
         (* emit_of_pattern_set_with_loop *)
+        (* the frame of an `of`: the item first, then n, i, max_count, count *)
         let of_loop :=
-          for_gen sp h qk (fun h1 => emit g sp h1 q)
-            (fun _ => set_count sp (length set)) (next_pattern sp set)
+          for_gen (S sp) h qk (fun h1 => emit g sp h1 q)
+            (fun _ => set_count (S sp) (length set)) (next_pattern (S sp) sp set)
             (fun h' =>
-               load_var (sp + 4)%nat TInt h' ++ [IUn I32WrapI64] ++
+               load_var sp TInt h' ++ [IUn I32WrapI64] ++
                match ak with
                | ANone => [ICall HCheckMatch]
                | AAt => emit g sp h' a1 ++ [ICall HMatchAt]
@@ -559,17 +572,17 @@ Section Emit.
         end
     | EForOf qk q set body =>
         for_gen sp h qk (fun h1 => emit g sp h1 q)
-          (fun _ => set_count sp (length set)) (next_pattern sp set)
+          (fun _ => set_count sp (length set)) (next_pattern sp (sp + 4)%nat set)
           (fun h' => emit_bool ((cur_key, ((sp + 4)%nat, TInt)) :: g) (sp + FOR_OF_FRAME)%nat h' body)
           (fun _ => [])
     | EOfB qk q items =>
         let n := exprs_length items in
-        for_gen sp h qk (fun h1 => emit g sp h1 q)
-          (fun _ => set_count sp n)
+        for_gen (S sp) h qk (fun h1 => emit g sp h1 q)
+          (fun _ => set_count (S sp) n)
           (fun hh =>
-             set_var (sp + 4)%nat TBool
-               (load_var (S sp) TInt hh ++ switch (emit_items true g (sp + OF_FRAME)%nat hh n 0 items)))
-          (fun h' => load_var (sp + 4)%nat TBool h')
+             set_var sp TBool
+               (load_var (S (S sp)) TInt hh ++ switch (emit_items true g (sp + OF_FRAME)%nat hh n 0 items)))
+          (fun h' => load_var sp TBool h')
           (fun _ => [])
     | EForTuple qk q x items body =>
         let n := exprs_length items in
@@ -616,6 +629,7 @@ Section Emit.
             ++ set_var i TInt [IConst (V64 0)]
             ++ (match qk with
                 | QExpr => set_var maxc TInt (emit g sp h1 q) ++ set_var cnt TInt [IConst (V64 0)]
+                | QPct => set_var maxc TInt (pct_code n h1 (emit g sp h1 q)) ++ set_var cnt TInt [IConst (V64 0)]
                 | _ => []
                 end)
             ++ [ILoop 1
